@@ -591,7 +591,10 @@ def rule_t4(F):
     ]
     paths = [p for p, _ in sites]
     paths += [p for p in F.paths() if p.endswith("::resolve_obligations")]
-    for p in paths:
+    # the signature gate may keep its defaults in a private helper of its module: the module is the site
+    gate_helpers = [bb.path for bb in F.bodies_in(["src/codegen/check.rs"]) if bb.hir and bb.path not in paths and "{closure" not in bb.path and "::tests::" not in bb.path]
+    gate_found = {"n": 0}
+    for p in paths + gate_helpers:
         b = F.body(p)
         if b is None:
             r.missing(p)
@@ -614,8 +617,14 @@ def rule_t4(F):
                     r.inst("%s|%s" % (p, var), {"fn": p, "literal_kind": var, "default": sorted(toks)})
                     if toks != {want}:
                         r.bad(p, var, relfile(b.file), line, "an unconstrained %s defaults to %s here, the language says %s" % (var, sorted(toks), want))
+        if b.file.endswith("src/codegen/check.rs"):
+            gate_found["n"] += found
+            continue
         if found == 0:
             r.bad(p, "default", relfile(b.file), b.line, "no literal-default arm found in %s" % p)
+    if gate_found["n"] == 0:
+        gb = F.body("codegen::check::check_roto_type")
+        r.bad("codegen::check::check_roto_type", "default", relfile(gb.file) if gb else "src/codegen/check.rs", gb.line if gb else 0, "no literal-default arm found in codegen::check::check_roto_type")
     return r
 
 
@@ -969,11 +978,19 @@ def rule_t9(F):
                 defs = defs or mir.Defs(b)
                 n_emit += 1
                 # every set_entry of this function keys the block by the branch's own index
+                eb, edefs = b, defs
                 entries = [(ei, et) for ei, et in mir.calls(b) if hir.last(mir.callee_def(et) or "") == "set_entry" and "Switch" in (mir.callee_def(et) or "")]
+                if not entries and t["args"] and mir.is_place_op(t["args"][0]):
+                    # the table is built by a helper of the code generator: judge the entries there
+                    for x in mir.back_calls(b, defs, t["args"][0][1][0]):
+                        hb = F.body(mir.callee(b.blocks[x]["term"]) or "")
+                        if hb is not None and hb.mir and any(hir.last(mir.callee_def(et) or "") == "set_entry" for _, et in mir.calls(hb)):
+                            eb, edefs = hb, mir.Defs(hb)
+                            entries = [(ei, et) for ei, et in mir.calls(hb) if hir.last(mir.callee_def(et) or "") == "set_entry" and "Switch" in (mir.callee_def(et) or "")]
                 ok_entries = bool(entries)
                 for ei, et in entries:
-                    k_ = mir.origin_key(b, defs, et["args"][1][1]) if len(et["args"]) > 2 and mir.is_place_op(et["args"][1]) else ""
-                    b_ = {hir.last(mir.callee(b.blocks[x]["term"]) or "") for x in mir.back_calls(b, defs, et["args"][2][1][0])} if len(et["args"]) > 2 and mir.is_place_op(et["args"][2]) else set()
+                    k_ = mir.origin_key(eb, edefs, et["args"][1][1]) if len(et["args"]) > 2 and mir.is_place_op(et["args"][1]) else ""
+                    b_ = {hir.last(mir.callee(eb.blocks[x]["term"]) or "") for x in mir.back_calls(eb, edefs, et["args"][2][1][0])} if len(et["args"]) > 2 and mir.is_place_op(et["args"][2]) else set()
                     # index = component 0 of the iterated (index, label) pair, block = get_block(component 1)
                     if not (re.search(r"\.0(\.|$)", k_) and "get_block" in b_):
                         ok_entries = False
